@@ -51,6 +51,8 @@ package cache
 //@   ensures old(r.Rcode) == 0 && !old(r.Truncated) ==> calls(GetMinimalTTL) == 1 && result == (lifetime(0, old(len(r.Answer)), ret(GetMinimalTTL, 0)) > 0 && (old(len(r.Answer)) == 0 || lazyCacheTtl <= 0 || lazyCacheTtl > 0))
 //@   ensures (old(r.Rcode) == 2 || old(r.Rcode) == 3) && !old(r.Truncated) ==> result
 //@   ensures !result ==> calls(cacheStore) == 0
+// (C04) the entry is stored under exactly the message key — byte for byte
+//@   ensures[C04] result ==> arg(cacheStore, 0, 1) == msgKey
 //@   ensures result ==> calls(cacheStore) == 1 && calls(copyNoOpt) == 1 && calls(timeNow) == 1 && arg(copyNoOpt, 0, 0) == r && arg(cacheStore, 0, 0) == backend
 //@   ensures result ==> atcall(cacheStore, 0, arg(cacheStore, 0, 2).resp == ret(copyNoOpt, 0) && arg(cacheStore, 0, 2).storedTime == ret(timeNow, 0))
 //@   ensures result && old(r.Rcode) != 0 ==> atcall(cacheStore, 0, arg(cacheStore, 0, 2).expirationTime.ns == ret(timeNow, 0).ns + lifetime(old(r.Rcode), 0, 0) * 1000000000) && arg(cacheStore, 0, 3).ns == ret(timeNow, 0).ns + lifetime(old(r.Rcode), 0, 0) * 1000000000
@@ -67,6 +69,8 @@ package cache
 //@   ensures result_1 ==> result_0 != nil
 //@   ensures result_0 != nil ==> atMostOneOPT(result_0.Extra) && okRRs(result_0.Extra) && wfMsg(result_0)
 //@   ensures calls(cacheGet) == 1 && arg(cacheGet, 0, 0) == backend
+// (C04) the backend is asked for exactly the message key — byte for byte, no folding or rewriting
+//@   ensures[C04] arg(cacheGet, 0, 1) == msgKey
 //@   ensures ret(cacheGet, 0, 0) == nil ==> result_0 == nil && !result_1 && calls(msgCopy) == 0
 //@   ensures ret(cacheGet, 0, 0) != nil ==> calls(timeNow) == 1
 //@   ensures ret(cacheGet, 0, 0) != nil && aftercall(cacheGet, 0, ret(timeNow, 0).ns < ret(cacheGet, 0, 0).expirationTime.ns) ==> !result_1 && calls(msgCopy) == 1 && result_0 == ret(msgCopy, 0) && arg(msgCopy, 0, 0) == aftercall(cacheGet, 0, ret(cacheGet, 0, 0).resp) && calls(SubtractTTL) == 1 && arg(SubtractTTL, 0, 0) == result_0 && calls(SetTTL) == 0
